@@ -262,6 +262,8 @@ def finish(pack, results, wall, tier, seed, write_evidence=True):
         if exit_code != 3:
             lines.append("CHECKER-ERROR no verdict: the vacuity canary is undecided / the engine disagrees with CPython on this tree and no violation was confirmed on the real code")
         exit_code = 3  # no confirmed violation and an engine whose verdicts cannot be trusted on this tree: no verdict
+    if exit_code == 3 and any(r.confirmed for r in violations):
+        exit_code = 1  # a violation that replays on the real code stands, whatever else went wrong in this run
     counted = [r for r in real if not is_known(r.name) or r.status == "proved"]
     n_ob = len(counted)
     n_dis = sum(1 for r in counted if r.status == "proved")
